@@ -322,13 +322,14 @@ def find_children_for_parent(var_collector: Collector, parent_node: ParentNode, 
         return process_list_breadth_first(var_collector, parent_node, value)
     elif isinstance(value, Exception):
         return process_list_breadth_first(var_collector, parent_node, value.args)
-    elif hasattr(value, '__class__'):
-        return process_dict_breadth_first(parent_node, variable_type.__name__, value.__dict__, correct_names)
-    elif hasattr(value, '__dict__'):
-        return process_dict_breadth_first(parent_node, variable_type.__name__, value.__dict__)
     else:
-        logging.debug("Unknown type processed %s", variable_type)
-        return []
+        # not every object has an attribute dictionary (bytes, slotted objects, generators, ...),
+        # and looking it up can run user code (__getattr__), so this must not fail the collection
+        try:
+            return process_dict_breadth_first(parent_node, variable_type.__name__, value.__dict__, correct_names)
+        except Exception:
+            logging.debug("Unknown type processed %s", variable_type)
+            return []
 
 
 def process_dict_breadth_first(parent_node, type_name, value, func=lambda x, y: y) -> List[Node]:
